@@ -745,7 +745,11 @@ impl<'a, R: ?Sized + std::io::BufRead> Tokenizer<'a, R> {
 
                 // Verify we're not in a here document.
                 if !matches!(self.cross_state.here_state, HereState::None) {
-                    if self.remove_here_end_tag(&mut state, &mut result, false)? {
+                    // N.B. Only a body can be ended by its tag; before the body has started an
+                    // empty tag (`<<"" `) would "match" the empty token forever.
+                    if matches!(self.cross_state.here_state, HereState::InHereDocs)
+                        && self.remove_here_end_tag(&mut state, &mut result, false)?
+                    {
                         // If we hit end tag without a trailing newline, try to get next token.
                         continue;
                     }
